@@ -51,6 +51,14 @@ Definition p01 (dst : bytes) (ledger : list (bytes * bytes)) (obs : sx) : sx :=
 
 Definition run_C01 (case obs : sx) : sx :=
   match case with
+  | SL [t; SN _; SN _] =>
+      (* Tells that run into their deadline while writing: obs = (failed deliveries foreign) *)
+      if is_sym "quic-deadline" t then
+        match obs with
+        | SL [SN f; SN d; SN foreign] => SL [SL [SN f; SN d; SN 0]; if foreign =? 0 then ok else bad "truncated-payload-delivered"]
+        | _ => SL [obs; bad "unreadable-observation"]
+        end
+      else bad_case
   | SL [t; SN _; SN _; SN _] =>
       (* concurrent receivers on one UDP swarm: obs = (received changed-or-mixed) *)
       if is_sym "udp-concurrent" t then
